@@ -43,34 +43,19 @@ Definition qmax_list (l : list Q) : Q := match l with [] => 0 | x :: t => qmaxl 
 
 (* np.roll(data, -1) *)
 Definition rollq (d : list Q) : list Q := match d with [] => [] | x :: t => t ++ [x] end.
-(* np.where(diffs > 180, 360 - diffs, diffs) *)
+(* np.where(x > 180, 360 - x, x): the fold used by angular_difference *)
 Definition fold180 (x : Q) : Q := if Qltb 180 x then 360 - x else x.
-Definition adiff (p : Q * Q) : Q := fold180 (Qabs (fst p - snd p)).
 
-(* np.argmax: the first position holding the maximum; we return the element there *)
-Fixpoint first_max {A} (f : A -> Q) (best : A) (l : list A) : A :=
-  match l with
-  | [] => best
-  | x :: t => if Qltb (f best) (f x) then first_max f x t else first_max f best t
-  end.
-Definition count_nz (l : list Q) : nat := length (filter (fun x => negb (Qeq_bool x 0)) l).
-
-(* the body from `data_rolled = ...` on, for data already reduced mod 360 and sorted
-   (or, for skipna, rotated with zeros appended) *)
+(* the body from `data_rolled = ...` on (repaired routine, /repo abf9f57), for data already reduced mod 360 and
+   sorted (or, for skipna, rotated with zeros appended):
+     gaps = (data_rolled - data) % 360 ; largest = max(gaps) ; where(largest == 0, 0, 360 - largest) *)
 Definition sector_core (d : list Q) : Q :=
   match d with
   | [] => 0
-  | d0 :: _ =>
-    let rolled := rollq d in
-    let pairs := combine d rolled in
-    let diffs := map adiff pairs in
-    let best := first_max adiff (d0, hd d0 rolled) pairs in        (* pair at argmax *)
-    let fba := fst best in                                           (* first_bounding_angle *)
-    let rotated := map (fun r => qmod360 (r - fba)) rolled in
-    let second := qmod360 (snd best - fba) in                        (* second_bound_angle_rotated *)
-    let maxrot := qmax_list rotated in
-    let result := if Qeq_bool maxrot second then second else 360 - second in
-    if (count_nz diffs <=? 2)%nat then qmax_list diffs else result
+  | _ :: _ =>
+    let gaps := map (fun p : Q * Q => qmod360 (snd p - fst p)) (combine d (rollq d)) in
+    let largest := qmax_list gaps in
+    if Qeq_bool largest 0 then 0 else 360 - largest
   end.
 
 Definition finq (v : xv) : list Q := match v with XFin q => [q] | _ => [] end.
